@@ -9,7 +9,9 @@ for a in "$@"; do case "$a" in --no-coqchk) COQCHK=0;; --makefile-only) MKONLY=1
 { echo "-Q . JF"; echo "-arg -w -arg -notation-overridden,-deprecated-hint-rewrite-without-locality,-deprecated-instance-without-locality,-deprecated-hint-without-locality"; for d in Base Model Proofs Props; do ls $d/*.v 2>/dev/null || true; done; } > _CoqProject
 coq_makefile -f _CoqProject -o Makefile >/dev/null
 [ $MKONLY = 1 ] && exit 0
-timeout 6000 make -j16
+# -k: one file that does not compile must not disable the checks of the other properties;
+# the check of the affected property then reports its broken obligation.
+timeout 6000 make -k -j16 || echo "WARNING: some Coq files did not compile (see above); the affected checks will report it" >&2
 if [ $COQCHK = 1 ]; then
   mkdir -p ../evidence
   mods=$(ls Props/*.v | sed 's|/|.|; s|\.v$||; s|^|JF.|')
